@@ -107,7 +107,12 @@ OTHERW = (((0, 0)), ((1, 0)), ((0, 2)), ((2, 1)))
 def check_pad(rec, K, N, table, axis, comp, wA, wB, ri, li, seed, g=None, case=None, order=0):
     from xgcm.padding import pad
 
+    # per-axis rules and fill values: the operated axis gets RULES[ri], the other axis the next rule
     rule, fv = RULES[ri]
+    orule, ofv = RULES[(ri + sum(wA) + sum(wB)) % len(RULES)]  # same rule as the operated axis in a third of the cases
+    ofv = ofv - 10.0
+    brule = {axis: rule, T.OTHER[axis]: orule}
+    bfv = {axis: fv, T.OTHER[axis]: ofv}
     layout = LAYOUTS[li]
     if case is None:
         case = dict(K=K, N=N, table=tab_json(table), axis=axis, comp=comp, wA=list(wA), wB=list(wB), ri=ri, li=li, order=order)
@@ -143,10 +148,10 @@ def check_pad(rec, K, N, table, axis, comp, wA, wB, ri, li, seed, g=None, case=N
         bw[T.OTHER[axis]] = tuple(wB)
     try:
         if comp == "s":
-            r = pad(to_da(arrays["s"], "s", layout), g, bw, boundary=rule, fill_value=fv)
+            r = pad(to_da(arrays["s"], "s", layout), g, bw, boundary=dict(brule), fill_value=dict(bfv))
         else:
             oc = T.OTHER[comp]
-            r = pad({comp: to_da(arrays[comp], comp, layout)}, g, bw, boundary=rule, fill_value=fv,
+            r = pad({comp: to_da(arrays[comp], comp, layout)}, g, bw, boundary=dict(brule), fill_value=dict(bfv),
                     other_component={oc: to_da(arrays[oc], oc, layout)})
     except Exception as e:
         rec.violation("pad", "raise:" + exc_sig(e), case, "padded array", f"{type(e).__name__}: {e}"[:200])
@@ -157,14 +162,12 @@ def check_pad(rec, K, N, table, axis, comp, wA, wB, ri, li, seed, g=None, case=N
         rec.violation("pad", "dims", case, want, list(r.dims))
         return
     v = r.transpose(*want).values
-    rules = {"X": rule, "Y": rule}
-    fvs = {"X": fv, "Y": fv}
+    rules = brule
     for tt in ((0, 1) if "t" in layout else (None,)):
         vv = v if tt is None else v[tt]
         arrs = arrays if tt in (None, 0) else {k: a * 2 + 1000 for k, a in arrays.items()}
-        fv_ = fv
         for f in range(K):
-            exp = T.ref_padded_face(table, N, arrs, comp, f, widths, rules, {"X": fv_, "Y": fv_}, isvec)
+            exp = T.ref_padded_face(table, N, arrs, comp, f, widths, rules, bfv, isvec)
             got = vv[f]
             if got.shape != exp.shape:
                 rec.violation("pad", "shape", case, list(exp.shape), list(got.shape))
